@@ -805,11 +805,21 @@ def same_text_programs(export=("ExportJson",), derive=False, memberships=False):
                 ["NewRecord", ["d", "0"], "Membership", ["S", "ex:mm"],
                  [[["Q", "prov", PROV, "collection"], ["qn", "ex", EXU, "c2"]]] + [[["Q", "prov", PROV, "entity"], ["qn", "ex", EXU, m]] for m in reversed(members)]],
             ]
-            if not memberships:
+            if memberships:
+                # four members given in reverse of their sorted order: a set of four sits in an eight-slot table, two of
+                # them collide under most hash seeds, and then the iteration order records the insertion order
+                for gi, ms in enumerate((["d", "c", "b", "a"], ["vol9", "vol7", "vol3", "vol1"], ["zebra", "quail", "mole", "apple"],
+                                         ["t4", "t3", "t2", "t1"], ["p" + num, "o" + num, "n" + num, "m" + num])):
+                    recs.append(["NewRecord", ["d", "0"], "Membership", "none",
+                                 [[["Q", "prov", PROV, "collection"], ["qn", "ex", EXU, "coll%d" % gi]]] +
+                                 [[["Q", "prov", PROV, "entity"], ["qn", "ex", EXU, m]] for m in o(ms)]])
+            else:
                 # (a membership listing several members is the compatibility path no property but C12 / C13 speaks about)
                 recs = [r for r in recs if r[2] != "Membership"]
             p = [["NewDoc"], ["AddNs", ["d", "0"], "ex", EXU]] + recs
-            seq = list(export) + ["ExportProvn"] + list(export) + ["ToGraph"] + list(export)
+            # (no export at all inside the program when none is asked for: C13's oracle makes every export itself, twice,
+            # and must find the document as the calls left it)
+            seq = (list(export) + ["ExportProvn"] + list(export) + ["ToGraph"] + list(export)) if export else []
             for e in seq:
                 p.append([e, "0"])
             if derive:
